@@ -64,6 +64,9 @@ fn print_outcome(ctx: &Ctx, rep: &Report) -> i32 {
 
 fn main() {
   install_panic_hook();
+  if std::env::var("HPXV_NO_WARMUP").is_err() {
+    hpxv::sut::warm_up();
+  }
   let args: Vec<String> = std::env::args().collect();
   let cmd = args.get(1).map(|s| s.as_str()).unwrap_or("");
   let code = match cmd {
